@@ -292,6 +292,11 @@ class OpaqueSignature(Signature):
     def from_signer(self, sig):
         self.data = bytearray(sig)
 
+    def __copy__(self):
+        sig = super(OpaqueSignature, self).__copy__()
+        sig.data = copy.copy(self.data)
+        return sig
+
 
 class RSASignature(Signature):
     __mpis__ = ('md_mod_n', )
@@ -440,6 +445,11 @@ class OpaquePubKey(PubKey):  # pragma: no cover
     def parse(self, packet):
         ##TODO: this needs to be length-bounded to the end of the packet
         self.data = packet
+
+    def __copy__(self):
+        pk = super(OpaquePubKey, self).__copy__()
+        pk.data = copy.copy(self.data)
+        return pk
 
 
 class RSAPub(PubKey):
